@@ -171,7 +171,8 @@ class RunConfig(object):
         self.specs = dict((s.name, s) for s in specs)
         # storage / codec knobs
         self.bufsize = rng.choice((1, 16, 512, 8192, 1 << 30))
-        self.hide_fileno = rng.random() < 0.3
+        self.hide_fileno = rng.random() < 0.15   # file objects without fileno(): no mmap, no 'real file' fast paths
+        self.mmap = rng.random() < 0.6            # FileStorage(supports_mmap=...)
         self.compound = rng.random() < 0.6
         self.blocklimit = rng.choice((1, 2, 3, 4, 8, 16, 128))
         self.compression = rng.choice((0, 0, 3, 9))
@@ -203,7 +204,7 @@ class RunConfig(object):
 
     def describe(self):
         return {"fields": list(self.fields), "vocab": list(self.vocab),
-                "bufsize": self.bufsize, "hide_fileno": self.hide_fileno,
+                "bufsize": self.bufsize, "hide_fileno": self.hide_fileno, "mmap": getattr(self, "mmap", True),
                 "compound": self.compound, "blocklimit": self.blocklimit,
                 "compression": self.compression, "limitmb": self.limitmb,
                 "inlinelimit": getattr(self, "inlinelimit", 1),
@@ -215,11 +216,13 @@ class DocGen(object):
     with a fresh uid each; keys are drawn from a small key space so that
     updates and deletes hit existing documents."""
 
-    def __init__(self, cfg, rng, nkeys=12):
+    def __init__(self, cfg, rng, nkeys=12, stored_only_p=0.0, k2_independent_p=0.0):
         self.cfg = cfg
         self.rng = rng
         self.nkeys = nkeys
         self.next_uid = 1
+        self.stored_only_p = stored_only_p        # documents without a single posting
+        self.k2_independent_p = k2_independent_p  # second unique key not tied to the first
 
     def doc(self, key=None, sparse_p=0.25, fields_subset=None):
         rng = self.rng
@@ -229,6 +232,12 @@ class DocGen(object):
             key = rng.randrange(self.nkeys)
         d = {"k": u"k%03d" % key, "u": self.next_uid}
         self.next_uid += 1
+        if self.stored_only_p and rng.random() < self.stored_only_p:
+            # only stored values: such a document produces no postings at all
+            del d["k"]
+            if "s" in cfg.fields:
+                d["s"] = cfg.specs["s"].gen(rng, ctx)
+            return d
         names = fields_subset if fields_subset is not None else cfg.fields
         for n in names:
             if n in ("k", "u", "sp", "k2"):
@@ -239,7 +248,10 @@ class DocGen(object):
         if "sp" in names and "so" in d:
             d["sp"] = d["so"]
         if "k2" in names:
-            d["k2"] = u"q%03d" % key
+            if self.k2_independent_p and rng.random() < self.k2_independent_p:
+                d["k2"] = u"q%03d" % rng.randrange(self.nkeys)
+            else:
+                d["k2"] = u"q%03d" % key
         r = rng.random()
         if r < 0.06:
             d["_boost"] = rng.choice((0.5, 2.0, 3.0))
